@@ -4,8 +4,8 @@
    the code leaves behind for ok AND raising outcomes).  `in_scopeb` is the property's stated exclusion (a batch size
    changed through a handle to a nested node must still extend the parent's).  `cleanb` is the complement of the recorded
    defects (findings D101 / D102: hollow nodes — empty TensorDicts, NonTensorData — keep a stale batch size; D103:
-   rename_key_ into a nested key stores without validation) plus the calls whose preservation proof is still pending
-   (listed in Model/C01_Scope.clean0). *)
+   rename_key_ into a nested key stores without validation; D108: auto_batch_size_(k) with k below the rank of a nested
+   node shrinks children before the parent), written out in Model/C01_Scope.clean0.  No modelled call is left out. *)
 From Coq Require Import List String Bool Arith.
 Import ListNotations.
 From TD Require Import Model.C01_Tree Model.C01_Ops Model.C01_Scope Proofs.C01_MainP.
